@@ -74,6 +74,31 @@ var hdrExprs = []string{"", "^v[0-9]$", "json", "^(a|b)$", "Chrome", "^$", "1", 
 	"^Orléans$", "^caf\\x{FFFD}$", "^[^a-zÿ]+$", "^.{3}$", "^café$"}
 var hdrValues = []string{"", "v1", "v22", "application/json", "a", "b", "Chrome/1", "zz", " v1", "v1 ", "\ta", "b\n", " ", "zz, v1", "v1,zz", "x,a", "a, b", "text/html, application/json", "v1;q=1", "a|b", "V1", "CHROME/1", "A", "ZZ", "\nb\n", "/a/", "application/json/x", "Orl\xe9ans", "Orléans", "caf\xe9", "café", "\xff\xfe", "caf\ufffd", "a\xffb"}
 
+// Long header values: a value is matched in full, however long it is (the only character that decides may be
+// the last one).
+func init() {
+	for _, n := range []int{4096, 8192, 8193, 16384, 65536, 100000} {
+		hdrValues = append(hdrValues,
+			strings.Repeat("a", n),     // matches ^(a|b)$? no; matches "^[ab]*$"
+			strings.Repeat("a", n)+"!", // spoiled at the very end
+			strings.Repeat("0", n)+"v1",
+			"v1"+strings.Repeat(" ", n)+"zz")
+	}
+	hdrExprs = append(hdrExprs, "^[ab]*$", "^[^!]*$", "v1$", "zz$", "^a+$")
+}
+
+// clipHdr shortens long header values for messages (the replay file has them in full).
+func clipHdr(h [][2]string) [][2]string {
+	out := make([][2]string, len(h))
+	for i, kv := range h {
+		if len(kv[1]) > 120 {
+			kv[1] = fmt.Sprintf("%s…(%d bytes)…%s", kv[1][:40], len(kv[1]), kv[1][len(kv[1])-20:])
+		}
+		out[i] = kv
+	}
+	return out
+}
+
 func genPairs(rng *rand.Rand) []string {
 	if rng.Intn(25) == 0 {
 		// many constraints at once: every one of them gates
@@ -718,7 +743,7 @@ func judgeC09Req(w *core.W, c *histCase, si int, st histStep, m *rmodel.Model, o
 		bestAll, _ = m.Dispatch(path, nil)
 	}
 	if msg := dispatchVerdict(best, obs); msg != "" {
-		detail := fmt.Sprintf("step %d: %s %q headers %v: %s", si, st.Method, path, st.Hdr, msg)
+		detail := fmt.Sprintf("step %d: %s %q headers %v: %s", si, st.Method, path, clipHdr(st.Hdr), msg)
 		if obs.found && obs.routeIdx < len(objs) && objs[obs.routeIdx] != nil && objs[obs.routeIdx].cons != nil && !consPass(objs[obs.routeIdx].cons, hdr) {
 			detail += fmt.Sprintf("\nthe serving route #%d is constrained by %v and the request does not satisfy it", obs.routeIdx, consText(objs[obs.routeIdx].cons))
 		}
@@ -814,7 +839,7 @@ func judgeC10Req(w *core.W, c *histCase, si int, st histStep, twin route.Tree, t
 		}
 	}
 	if msg := shortcutVerdict(obs, tObs); msg != "" {
-		w.Violate("shortcut-observable", c, fmt.Sprintf("step %d: %s %q headers %v: %s", si, st.Method, path, st.Hdr, msg))
+		w.Violate("shortcut-observable", c, fmt.Sprintf("step %d: %s %q headers %v: %s", si, st.Method, path, clipHdr(st.Hdr), msg))
 		return false
 	}
 	// non-triviality: is the path a (current or former) shortcut key, or near one
